@@ -58,7 +58,9 @@ func (d dlg) name() string {
 
 var userSpellings = []string{"Username: ", "login: ", "router login: "}
 var passSpellings = []string{"Password: ", "password:", "admin@dev's password: "}
-var banners = []string{"", "Authorized access only!\nAll activity is monitored.\n", "Last login: Sun Oct  4 10:00:00 2026 from 10.0.0.1\n"}
+var banners = []string{"", "Authorized access only!\nAll activity is monitored.\n", "Last login: Sun Oct  4 10:00:00 2026 from 10.0.0.1\n",
+	// a message of the day longer than the default prompt search depth (only used by the trailing-output dialogues)
+	"Last login: yesterday\n" + strings.Repeat("* maintenance window tonight, see the change calendar for details *\n", 24)}
 var sshErrors = []string{
 	"Host key verification failed.", "ssh: connect to host dev port 22: Operation timed out", "ssh: connect to host dev port 22: Connection timed out",
 	"ssh: connect to host dev port 22: No route to host", "Unable to negotiate with dev port 22: no matching host key type found. Their offer: ssh-rsa",
@@ -68,6 +70,14 @@ var sshErrors = []string{
 }
 
 func strp(s string) *string { return &s }
+
+// welcome0 is what the device prints when it admits us (before the shell prompt).
+func welcome0(s dlg) string {
+	if w := banners[s.banner]; w != "" {
+		return w
+	}
+	return shell
+}
 
 func build(s dlg) *dev.CLIDevice {
 	attempts, ppAttempts := 0, 0
@@ -214,7 +224,8 @@ func runDlg(w *sched.W, s dlg, hangAt int) (sentAtOpenEnd int) {
 		}
 		timeout := 40 * cm.Ms
 		if s.trail {
-			timeout = 2 * time.Second // the slow logger of these scenarios stretches the login
+			cfg.Horizon = 60 * time.Second
+			timeout = 20 * time.Second // the slow logger of these scenarios stretches the login (virtual time)
 		}
 		w.Explore(cfg, bounds, func(e *sched.Env) {
 			d := build(s)
@@ -349,6 +360,8 @@ func runDlg(w *sched.W, s dlg, hangAt int) (sentAtOpenEnd int) {
 						stream := strings.ReplaceAll(string(tr.AllOut), "\r", "")
 						if promptErr != nil || len(rest) == 0 || !strings.HasSuffix(stream, string(rest)) || !strings.Contains(string(rest), shell+trailText) {
 							e.Violate("c10:login-bytes-out-of-order", "after Open the channel holds %q (err %v): not the tail of what the device sent (%q)", rest, promptErr, stream)
+						} else if i := strings.LastIndex(stream, welcome0(s)); i >= 0 && !strings.HasSuffix(string(rest), stream[i:]) {
+							e.Violate("c10:login-bytes-lost", "after Open the channel holds %d bytes; the device printed %d bytes after the last credential (%q ...)", len(rest), len(stream)-i, stream[i:i+40])
 						}
 					} else if promptErr != nil || strings.TrimSpace(gotPrompt) != shell {
 						e.Violate("c10:first-getprompt", "GetPrompt after login: %q, %v", gotPrompt, promptErr)
@@ -387,7 +400,7 @@ func scenarios(tier string) []sched.Scenario {
 		return 0
 	}
 	for _, kind := range []string{"telnet", "telnet-passonly"} {
-		for b := range banners {
+		for b := range banners[:3] {
 			for u := range userSpellings {
 				if kind == "telnet-passonly" && u > 0 {
 					continue
@@ -403,7 +416,7 @@ func scenarios(tier string) []sched.Scenario {
 		}
 	}
 	for _, kind := range []string{"ssh", "ssh-nc"} {
-		for b := range banners {
+		for b := range banners[:3] {
 			for _, p := range []int{0, 2} {
 				for r := 0; r <= 3; r++ {
 					for pp := -1; pp <= 3; pp++ {
@@ -428,7 +441,8 @@ func scenarios(tier string) []sched.Scenario {
 	// the device keeps printing after it admitted us: the channel hands everything over in order
 	for _, mc := range presets {
 		for _, k := range []dlg{{"telnet", 1, 0, 0, 0, -1, -1, 0, mc, envOf(mc), true}, {"telnet", 0, 1, 1, 1, -1, -1, 0, mc, envOf(mc), true},
-			{"telnet-passonly", 0, 0, 0, 0, -1, -1, 0, mc, envOf(mc), true}, {"ssh", 2, 0, 2, 1, 1, -1, 0, mc, envOf(mc), true}, {"ssh", 0, 0, 0, 0, -1, -1, 0, mc, envOf(mc), true}} {
+			{"telnet-passonly", 0, 0, 0, 0, -1, -1, 0, mc, envOf(mc), true}, {"ssh", 2, 0, 2, 1, 1, -1, 0, mc, envOf(mc), true}, {"ssh", 0, 0, 0, 0, -1, -1, 0, mc, envOf(mc), true},
+			{"telnet", 3, 0, 0, 0, -1, -1, 0, mc, 0, true}, {"ssh", 3, 0, 2, 0, -1, -1, 0, mc, 0, true}} {
 			out = append(out, scenario(k))
 		}
 	}
